@@ -27,7 +27,7 @@ def run(ctx):
     # the pre-repair variant (H, r of the Z = 1 formula tested unreduced, F4) must be refuted
     jcfg = ("INIT Init\nNEXT Next\nCHECK_DEADLOCK FALSE\nCONSTANTS Primes = {%s}\n MaxK = %d\n MaxAB = 2\n ReduceHR = %s\n"
             "INVARIANT AddRefines\nINVARIANT DblRefines\nINVARIANT EqRefines\nINVARIANT ScaleNegRefine\nINVARIANT NafFacts\n"
-            "INVARIANT MulNafRefines\nINVARIANT MulTableRefines\n")
+            "INVARIANT MulNafRefines\nINVARIANT MulTableRefines\nINVARIANT AffAddRefines\n")
     ctx.add_tlc(core.tlc_or_die(ctx.workdir, "JacobiModel", jcfg % ("5, 7" if quick else "5, 7, 11", 20 if quick else 40, "TRUE"),
                                 tag="jac", timeout=3000))
     rb = core.tlc(ctx.workdir, "JacobiModel", jcfg % ("5", 4, "FALSE"), tag="jacbroken", timeout=600)
